@@ -2073,12 +2073,10 @@ namespace detail {
                     case path_state::relative_location: 
                         state_stack_.pop_back();
                         break;
-                    case path_state::identifier:
-                        if (!buffer.empty()) // Can't be quoted string
-                        {
-                            push_token(resources, token_type(resources.new_selector(identifier_selector<Json,JsonReference>(buffer))), ec);
-                            if (JSONCONS_UNLIKELY(ec)) {return path_expression_type(alloc_);}
-                        }
+                    case path_state::identifier: // only entered after a quoted string, which may be empty
+                        push_token(resources, token_type(resources.new_selector(identifier_selector<Json,JsonReference>(buffer))), ec);
+                        if (JSONCONS_UNLIKELY(ec)) {return path_expression_type(alloc_);}
+                        buffer.clear();
                         state_stack_.pop_back(); 
                         break;
                     case path_state::parent_operator: 
